@@ -199,6 +199,11 @@ fn search(needles: &Needles, hay: &[u8]) -> Vec<&'static str> {
 	forms
 }
 
+/// Debug rendering under every formatting flag (plain, pretty, hexadecimal integers, width)
+fn dbg_all<T: std::fmt::Debug>(v: &T) -> String {
+	format!("{:?}\n{:#?}\n{:x?}\n{:#X?}\n{:12?}", v, v, v, v, v)
+}
+
 fn channel(name: &str, key: &KeyInfo, needles: &Needles, hay: &[u8], n: &mut u64, out: &mut Out) {
 	*n += 1;
 	let forms = search(needles, hay);
@@ -254,7 +259,7 @@ pub fn run(out_path: &str, tier: &str) {
 					channel("KeyPair::public_key_der", &info, &needles, &k.kp.public_key_der(), &mut n, &mut out);
 					channel("KeyPair::public_key_pem", &info, &needles, k.kp.public_key_pem().as_bytes(), &mut n, &mut out);
 					channel("KeyPair::public_key_raw", &info, &needles, k.kp.public_key_raw(), &mut n, &mut out);
-					channel("Debug(KeyPair)", &info, &needles, format!("{:?} {:#?}", k.kp, k.kp).as_bytes(), &mut n, &mut out);
+					channel("Debug(KeyPair)", &info, &needles, dbg_all(&k.kp).as_bytes(), &mut n, &mut out);
 					channel("Debug(SignatureAlgorithm)", &info, &needles, format!("{:?}", k.kp.algorithm()).as_bytes(), &mut n, &mut out);
 					let mut p = to_params(&{
 						let mut d = base_params_desc();
@@ -266,11 +271,11 @@ pub fn run(out_path: &str, tier: &str) {
 					})
 					.unwrap();
 					p.serial_number = None;
-					channel("Debug(CertificateParams)", &info, &needles, format!("{:?}", p).as_bytes(), &mut n, &mut out);
+					channel("Debug(CertificateParams)", &info, &needles, dbg_all(&p).as_bytes(), &mut n, &mut out);
 					if let Outcome::Ok(cert) = guarded(|| p.clone().self_signed(&k.kp)) {
 						channel("Certificate::der", &info, &needles, cert.der(), &mut n, &mut out);
 						channel("Certificate::pem", &info, &needles, cert.pem().as_bytes(), &mut n, &mut out);
-						channel("Debug(Certificate)", &info, &needles, format!("{:?}", cert).as_bytes(), &mut n, &mut out);
+						channel("Debug(Certificate)", &info, &needles, dbg_all(&cert).as_bytes(), &mut n, &mut out);
 						let crl = CertificateRevocationListParams {
 							this_update: date_time_ymd(2024, 1, 1),
 							next_update: date_time_ymd(2024, 2, 1),
@@ -282,7 +287,7 @@ pub fn run(out_path: &str, tier: &str) {
 						if let Outcome::Ok(crl) = guarded(|| crl.signed_by(&cert, &k.kp)) {
 							channel("CertificateRevocationList::der", &info, &needles, crl.der(), &mut n, &mut out);
 							channel("CertificateRevocationList::pem", &info, &needles, crl.pem().unwrap_or_default().as_bytes(), &mut n, &mut out);
-							channel("Debug(CertificateRevocationList)", &info, &needles, format!("{:?}", crl).as_bytes(), &mut n, &mut out);
+							channel("Debug(CertificateRevocationList)", &info, &needles, dbg_all(&crl).as_bytes(), &mut n, &mut out);
 						}
 					}
 					let mut q = p.clone();
@@ -291,14 +296,14 @@ pub fn run(out_path: &str, tier: &str) {
 					if let Outcome::Ok(csr) = guarded(|| q.serialize_request(&k.kp)) {
 						channel("CertificateSigningRequest::der", &info, &needles, csr.der(), &mut n, &mut out);
 						channel("CertificateSigningRequest::pem", &info, &needles, csr.pem().unwrap_or_default().as_bytes(), &mut n, &mut out);
-						channel("Debug(CertificateSigningRequest)", &info, &needles, format!("{:?}", csr).as_bytes(), &mut n, &mut out);
+						channel("Debug(CertificateSigningRequest)", &info, &needles, dbg_all(&csr).as_bytes(), &mut n, &mut out);
 						if let Outcome::Ok(parsed) = guarded(|| CertificateSigningRequestParams::from_der(csr.der())) {
-							channel("Debug(CertificateSigningRequestParams)", &info, &needles, format!("{:?}", parsed).as_bytes(), &mut n, &mut out);
-							channel("Debug(PublicKey)", &info, &needles, format!("{:?}", parsed.public_key).as_bytes(), &mut n, &mut out);
+							channel("Debug(CertificateSigningRequestParams)", &info, &needles, dbg_all(&parsed).as_bytes(), &mut n, &mut out);
+							channel("Debug(PublicKey)", &info, &needles, dbg_all(&parsed.public_key).as_bytes(), &mut n, &mut out);
 						}
 					}
 					if let Outcome::Ok(spki) = guarded(|| SubjectPublicKeyInfo::from_der(&k.kp.public_key_der())) {
-						channel("Debug(SubjectPublicKeyInfo)", &info, &needles, format!("{:?}", spki).as_bytes(), &mut n, &mut out);
+						channel("Debug(SubjectPublicKeyInfo)", &info, &needles, dbg_all(&spki).as_bytes(), &mut n, &mut out);
 					}
 				}
 				// error paths reachable with a key in hand
